@@ -207,6 +207,7 @@ package vuego
 //@   loop 0 invariant C12.loop: failed(w) == old(failed(w))
 
 //@ func (v *Vue) renderNodesWithContext(ctx, w, nodes) (err)
+//@   assert C16.ids.string.distinct: hasPrefix($arg0, "string template of ") at "call assignOnceIDs"
 //@   ensures C12.nothing: err != nil && !failed(w) ==> out(w) == old(out(w))
 //@   ensures C12.reported: failed(w) && !old(failed(w)) ==> err != nil
 //@   ensures C12.complete: err == nil ==> failed(w) == old(failed(w))
